@@ -74,10 +74,13 @@ class Builder:
         lines = [self.docline(self.rng, uid, k) for k in range(n)]
         if self.p_trigger and self.rng.random() < self.p_trigger and self.trigger:
             # the trigger in the middle of a line or, as one writes a field, at its very start
-            if self.rng.random() < 0.5:
-                lines.append(f"{{L{uid}.{n}}} {self.trigger} FOO: something")
+            tl = f"{{L{uid}.{n}}} {self.trigger} FOO: something" if self.rng.random() < 0.5 else \
+                f"{self.trigger} FOO: something {{L{uid}.{n}}}"
+            # ... as the last line of the doccomment or (one time in three) as its first
+            if self.rng.random() < 0.33:
+                lines.insert(0, tl)
             else:
-                lines.append(f"{self.trigger} FOO: something {{L{uid}.{n}}}")
+                lines.append(tl)
         elif self.p_trigger and self.rng.random() < self.p_trigger and self.trigger:
             # near misses: a single word of a trigger that contains blanks, the trigger without its last character,
             # the trigger in another letter case -- none of them is the configured string
